@@ -206,7 +206,7 @@ spif_mbuff_init_from_fp(spif_mbuff_t self, FILE *fp)
         self->len = 0;
         self->buff = (spif_byteptr_t) MALLOC(self->size);
 
-        for (p = self->buff; (cnt = fread(p, 1, buff_inc, fp)) > 0; p += buff_inc) {
+        for (p = self->buff; (cnt = fread(p, 1, buff_inc, fp)) > 0; ) {
             self->len += cnt;
             if (feof(fp)) {
                 break;
@@ -214,8 +214,10 @@ spif_mbuff_init_from_fp(spif_mbuff_t self, FILE *fp)
                 libast_print_warning("read failed:  %s.\n", strerror(errno));
                 break;
             } else {
-                self->size += buff_inc;
+                /* Continue right after what has been read, in the (possibly moved) buffer. */
+                self->size = self->len + buff_inc;
                 self->buff = (spif_byteptr_t) REALLOC(self->buff, self->size);
+                p = self->buff + self->len;
             }
         }
         self->size = self->len;
@@ -227,6 +229,8 @@ spif_mbuff_init_from_fp(spif_mbuff_t self, FILE *fp)
     } else {
         file_size = ftell(fp);
         fseek(fp, file_pos, SEEK_SET);
+        /* Only what lies between the current position and the end can be read. */
+        file_size -= (spif_memidx_t) file_pos;
         LOWER_BOUND(file_size, 0);
         if (file_size <= 0) {
             spif_mbuff_init(self);
